@@ -24,12 +24,18 @@ Notation quiescent := (Server.quiescent decomp decode K).
 (* 1. close(), from any reachable state: the listener is closed and its queue reset, Server.clients is empty, and every
       connection that was being served (own worker, pool, inline authenticator) has had its socket shut down IN THAT STEP,
       so its client reads end-of-stream without any further step of the server *)
+(* SCOPE (c17_close_ends_clients_partial in all but name): servers whose authenticator does NOT replace the accepted socket.  The model fixes a
+   client's authentication behaviour when it connects and registers the served socket in one step with the end of authentication; it has no
+   "the client finishes authenticating later" event and no handshake during which Server.clients holds only the detached original.  For
+   socket-replacing authenticators (TLS) the behaviour is checked by the harness only: close() during the handshake misses the client
+   (findings close-misses-client-in-authentication:*, close-leaves-client-connected:*:in-socket-replacing-handshake). *)
 Theorem c17_close_ends_clients : forall s, reach s -> close_reaches K = true -> Server.accept_rechecks_closed (fx K) = true ->
+  has_auth K && auth_replaces K = false ->
   let s' := server_close K s in
   step EClose s = Some s'
   /\ closed s' = true /\ active s' = false /\ lopen s' = false /\ clients s' = [] /\ backlog s' = []
   /\ forall c, serving (stg (conns s c)) = true -> shut (conns s' c) = true.
-Proof. intros s R H _. split; [reflexivity|]. exact (close_ends_clients decomp decode K s R H). Qed.
+Proof. intros s R H _ _. split; [reflexivity|]. exact (close_ends_clients decomp decode K s R H). Qed.
 (* The hypothesis on accept: the transition system takes accept() as ONE step.  That is faithful on a tree whose accept looks at _closed
    again after clients.add(sock): whichever way a concurrent close() interleaves, the socket is closed by one of the two
    (c17_accept_close_race_harmless).  On a tree without the re-check a close() that runs between the `active` test and clients.add
@@ -59,6 +65,8 @@ Theorem c17_after_close_hooks_ran : forall s, reach s -> closed s = true -> clos
             /\ (authd (conns s c) = true -> hooks (conns s c) = 1 /\ stg (conns s c) = Finished).
 Proof. exact (closed_and_quiet decomp decode K). Qed.
 
+(* SCOPE: the model's initial state is the STARTED server; close() on a server that was created and never started is outside it
+   (the thread pool raises AttributeError there: finding close-before-start-raises:pool:AttributeError, harness only). *)
 (* 2. closing twice is harmless: close() is always enabled and the second one is the identity *)
 Theorem c17_close_idempotent : forall s,
   step EClose s = Some (server_close K s) /\ server_close K (server_close K s) = server_close K s.
@@ -79,6 +87,10 @@ Proof. exact (no_residue_running decomp decode K). Qed.
 Theorem c17_no_residue_closed : forall s, reach s -> closed s = true -> Server.accept_rechecks_closed (fx K) = true ->
   clients s = [] /\ backlog s = [] /\ (pool_fix K = true -> fdmap s = [] /\ pollset s = []) /\ active s = false /\ lopen s = false.
 Proof. intros s R Hc _. exact (no_residue_closed decomp decode K s R Hc). Qed.
+(* SCOPE: the model identifies a pooled connection with its table key, and keys are never reused.  The code keys its tables by descriptor
+   NUMBER, which the kernel reuses; the identification is faithful on a tree whose _serve_requests drops a connection only if the table still
+   holds THAT connection (translator fact pool_drop_checks_identity; otherwise finding good-client-dropped:pool:descriptor-number-reused,
+   found by the harness op `hookhold`), and whose worker serves descriptor 0 like any other (fact pool_serves_fd_zero). *)
 (* the pool's tables are consistent in every reachable running state: a registered descriptor is in exactly one of
    poll set / queue / a worker's hands, and nothing else is anywhere *)
 Theorem c17_pool_single_owner : forall s, reach s -> active s = true ->
